@@ -50,6 +50,7 @@ const prelude = `(set-option :print-success false)
 (declare-fun uIsLetter (Int) Bool)
 (declare-fun uIsDigit (Int) Bool)
 (declare-fun uIsSpace (Int) Bool)
+(declare-fun clen (Int) Int)
 `
 
 // NewSolver starts a solver process.
@@ -59,6 +60,10 @@ func NewSolver(timeoutMs int) (*Solver, error) {
 		bin = b
 	}
 	s := &Solver{Bin: bin, Timeout: timeoutMs}
+	if lf := os.Getenv("VERIF_SOLVER_LOG"); lf != "" {
+		f, _ := os.OpenFile(lf, os.O_CREATE|os.O_WRONLY|os.O_APPEND, 0o644)
+		s.Log = f
+	}
 	if err := s.start(); err != nil {
 		return nil, err
 	}
@@ -186,6 +191,9 @@ func (s *Solver) Check() Result {
 	}
 	s.Queries++
 	s.Time += time.Since(start)
+	if s.Log != nil {
+		fmt.Fprintf(s.Log, "; time %v\n", time.Since(start))
+	}
 	return r
 }
 
